@@ -119,3 +119,64 @@ package rag
 //@   flags callsites
 //@   callsite strings.Repeat(s, count) requires level_1_to_6: s == "#" ==> 1 <= count && count <= 6
 //@   callsite strings.Repeat(s, count) requires level_is_clamped_shift: s == "#" ==> count == headingLevelSpec(c.Metadata.HeadingLevel, opts.HeadingLevelOffset, opts.MaxHeadingLevel)
+
+// ---- C12: chunk indices, ids, page ranges and section paths ----
+// every chunk constructor takes the next index, advances the counter by exactly one, reports the page its content came
+// from, and stores its OWN copy of the section path (fresh: the caller keeps mutating its section stack).
+//@ func (*DocumentChunker) createTextChunk results (c)
+//@   property C12
+//@   ensures index: c.Metadata.ChunkIndex == old(*chunkIndex) && *chunkIndex == old(*chunkIndex) + 1
+//@   ensures page: c.Metadata.PageStart == block.pageNum && c.Metadata.PageEnd == block.pageNum
+
+//@ func (*DocumentChunker) createHeadingChunk results (c)
+//@   property C12
+//@   flags noalias
+//@   fresh SectionPath
+//@   ensures index: c.Metadata.ChunkIndex == old(*chunkIndex) && *chunkIndex == old(*chunkIndex) + 1
+//@   ensures page: c.Metadata.PageStart == pageNum && c.Metadata.PageEnd == pageNum
+//@   ensures level: c.Metadata.HeadingLevel == level
+
+//@ func (*DocumentChunker) createChunkFromHeading results (c)
+//@   property C12
+//@   flags noalias
+//@   fresh SectionPath
+//@   ensures index: c.Metadata.ChunkIndex == old(*chunkIndex) && *chunkIndex == old(*chunkIndex) + 1
+//@   ensures page: c.Metadata.PageStart == pageNum && c.Metadata.PageEnd == pageNum
+
+//@ func (*DocumentChunker) createListChunk results (c)
+//@   property C12
+//@   flags noalias, nosafety
+//@   fresh SectionPath
+//@   ensures index: c.Metadata.ChunkIndex == old(*chunkIndex) && *chunkIndex == old(*chunkIndex) + 1
+//@   ensures page: c.Metadata.PageStart == pageNum && c.Metadata.PageEnd == pageNum
+
+//@ func (*DocumentChunker) createTableChunk results (c)
+//@   property C12
+//@   flags noalias
+//@   fresh SectionPath
+//@   ensures index: c.Metadata.ChunkIndex == old(*chunkIndex) && *chunkIndex == old(*chunkIndex) + 1
+//@   ensures page: c.Metadata.PageStart == pageNum && c.Metadata.PageEnd == pageNum
+
+//@ func (*DocumentChunker) createImageChunk results (c)
+//@   property C12
+//@   flags noalias
+//@   fresh SectionPath
+//@   ensures index: c.Metadata.ChunkIndex == old(*chunkIndex) && *chunkIndex == old(*chunkIndex) + 1
+//@   ensures page: c.Metadata.PageStart == pageNum && c.Metadata.PageEnd == pageNum
+
+// section stack: after a heading of level L the path is the chain of enclosing headings: the old entries of level < L
+// followed by the new heading.  lv (ghost) = levels of the current entries (strictly increasing).
+//@ func updateSectionPath
+//@   property C12
+//@   flags nosafety
+//@   ghost lv []int
+//@   requires len(lv) == len(*sectionPath) && newLevel >= 1
+//@   requires forall j int :: {lv[j]} 0 <= j && j < len(lv) ==> lv[j] >= 1 && (j + 1 < len(lv) ==> lv[j] < lv[j+1])
+//@   requires len(lv) > 0 ==> lv[len(lv)-1] == *currentLevel
+//@   requires len(lv) == 0 ==> *currentLevel == 0
+//@   ensures level: *currentLevel == newLevel
+//@   ensures chain_no_skipped_levels: (forall j int :: {lv[j]} 0 <= j && j < len(lv) ==> lv[j] == j + 1) && newLevel <= len(lv) + 1 ==> len(*sectionPath) == newLevel && (forall j int :: {(*sectionPath)[j]} 0 <= j && j < newLevel - 1 ==> (*sectionPath)[j] == old(*sectionPath)[j])
+//@   ensures chain_any_levels: exists k int :: 0 <= k && k <= len(lv) && (forall j int :: {lv[j]} 0 <= j && j < k ==> lv[j] < newLevel) && (forall j int :: {lv[j]} k <= j && j < len(lv) ==> lv[j] >= newLevel) && len(*sectionPath) == k + 1 && (forall j int :: {(*sectionPath)[j]} 0 <= j && j < k ==> (*sectionPath)[j] == old(*sectionPath)[j])
+//@   loop 0:
+//@     invariant len(*sectionPath) <= len(old(*sectionPath)) && samebase(*sectionPath, old(*sectionPath)) && off(*sectionPath) == off(old(*sectionPath)) && ((forall j int :: {lv[j]} 0 <= j && j < len(lv) ==> lv[j] == j + 1) ==> len(*sectionPath) >= newLevel - 1)
+//@     decreases len(*sectionPath)
